@@ -53,8 +53,8 @@ func (c10) ID() string { return "C10" }
 
 func init() { register(c10{}) }
 
-var c10Bodies = []string{"val", "gate-ctx", "gate-ign", "throw", "sleep", "spin", "fail", "deref-other"}
-var c10BodyW = []int{3, 4, 3, 2, 3, 2, 1, 1}
+var c10Bodies = []string{"val", "gate-ctx", "gate-ign", "throw", "sleep", "spin", "fail", "deref-other", "nil", "false", "coll", "gate-then-throw", "call-fn", "nested-future"}
+var c10BodyW = []int{3, 4, 3, 2, 3, 2, 1, 1, 1, 1, 1, 2, 1, 1}
 var c10OpKinds = []string{"deref", "done?", "cancelled?", "cancel", "deref-deadline", "nap"}
 var c10OpW = []int{5, 4, 3, 2, 3, 1}
 
@@ -198,6 +198,19 @@ func (c10) Run(tp *Tape, opt RunOpt) *RunOut {
 			f.Src, f.Normal, f.NormalOK = "(future "+tr+" (spin "+strconv.Itoa(f.Spin)+") "+k+")", k, true
 		case "deref-other":
 			f.Src = "(future " + tr + " @f0)"
+		case "nil":
+			f.Src, f.Normal, f.NormalOK = "(future "+tr+" nil)", "nil", true
+		case "false":
+			f.Src, f.Normal, f.NormalOK = "(future "+tr+" false)", "false", true
+		case "coll":
+			f.Src, f.Normal, f.NormalOK = "(future "+tr+" (list "+k+" [1 2] {:k "+k+"}))", "("+k+" [1 2] {:k "+k+"})", true
+		case "gate-then-throw":
+			f.Src, f.Normal, f.NormalOK = "(future "+tr+" (gate! \"g"+k+"\") (throw "+k+"))", "#thrown<"+k+">", true
+			gates = append(gates, "g"+k)
+		case "call-fn":
+			f.Src, f.Normal, f.NormalOK = "(future-call (fn [] (do "+tr+" (spin 3) "+k+")))", k, true
+		case "nested-future":
+			f.Src, f.Normal, f.NormalOK = "(future "+tr+" @(future (do (spin 2) "+k+")))", k, true
 		}
 		w.futs = append(w.futs, f)
 		rendering = append(rendering, "creator: (def "+futName(i)+" "+f.Src+")")
